@@ -13,7 +13,7 @@ def register(PROPS):
                  'the last), written as one EXDATE list (ascending and descending), as one EXDATE line per instant (both orders) or combined with '
                  'one of 5 DTSTART-synchronised EXRULEs, crossed with every subset of a 3-instant RDATE universe (one list or one line each), is '
                  'parsed by the real parser and the task stream is popped to its end; the delivered starts are compared with '
-                 '(rule instances u RDATE) minus the instants equal to an exception.  A second driver (c02_zonemix) writes every subset of up to 4 (thorough 5) exception instants of an HOURLY;INTERVAL=4 event with EVERY assignment of a written form to each value (UTC with Z, or local time of Asia/Tokyo, America/Phoenix, Asia/Kolkata via TZID), so lists whose raw values order differently from their instants are covered.  Its duprdate mode lists each of three instants 0, 1 or 2 times as RDATE (every written form per copy, or one comma list) against every EXDATE subset: delivered = (rule instances u listed) minus excepted, each once.  A third driver (c02_datelist) takes a 12-occurrence MONTHLY event at a fixed local time in Europe/Berlin, America/New_York and America/Sao_Paulo (7 or 8 occurrences on the other side of a DST switch) and writes EVERY ORDERED sequence of 1..3 (thorough 4) days out of the 12 occurrence days and 2 other days as a VALUE=DATE EXDATE or RDATE list (one comma list, or one line per day); the delivered instants must be the own instants without the listed days (EXDATE), or united with the local time on the listed days (RDATE; taken from the same event run DAILY).  Complete within that bound.',
+                 '(rule instances u RDATE) minus the instants equal to an exception.  A second driver (c02_zonemix) writes every subset of up to 4 (thorough 5) exception instants of an HOURLY;INTERVAL=4 event with EVERY assignment of a written form to each value (UTC with Z, or local time of Asia/Tokyo, America/Phoenix, Asia/Kolkata via TZID), so lists whose raw values order differently from their instants are covered.  Its duprdate mode lists each of three instants 0, 1 or 2 times as RDATE (every written form per copy, or one comma list) against every EXDATE subset: delivered = (rule instances u listed) minus excepted, each once.  A third driver (c02_datelist) takes a 12-occurrence MONTHLY event at a fixed local time in Europe/Berlin, America/New_York and America/Sao_Paulo (7 or 8 occurrences on the other side of a DST switch; plus two DAILY x12 events that START within hours of a switch: Europe/Berlin 2015-03-29 01:30 and America/New_York 2015-11-01 03:00, where the wall clock read as UTC and the true UTC instant lie on opposite sides of it) and writes EVERY ORDERED sequence of 1..3 (thorough 4) days out of the 12 occurrence days and 2 other days as a VALUE=DATE EXDATE or RDATE list (one comma list, or one line per day); the delivered instants must be the own instants without the listed days (EXDATE), or united with the local time on the listed days (RDATE; taken from the same event run DAILY).  Complete within that bound.',
         'note': 'Exception lists longer than 11, date-time TZID values of zones with DST transitions, RDATE before DTSTART and EXRULEs not synchronised with DTSTART are outside.  '
                 'The property quantifies over durations that do not reach the next occurrence; the events of the enumeration whose duration does '
                 '(the all-day daily event lasting one day; a mid-gap RDATE with a duration of gap/2 or more) are judged by the same start-equality '
